@@ -224,7 +224,7 @@ def check_real_fits(chk, rng, n):
             chk.violation(f"Stats[fit {kind}]: link={feats['link']} penalty={feats.get('penalty', False)}", f"{msg}; fit {key_f}", rep)
         pen, addp = reevaluate(res)
         cost2 = 0.5 * float(np.dot(pen, pen))
-        if abs(cost2 - res.cost) > 1e-9 * max(1e-300, abs(cost2)):
+        if not (abs(cost2 - res.cost) <= 1e-9 * max(1e-300, abs(cost2))):      # NaN-safe
             chk.violation(f"Stats[fit cost != objective at optimum]: link={feats['link']} penalty={feats.get('penalty', False)}",
                           f"cost {res.cost!r} != objective re-evaluated at the optimised parameters {cost2!r}; fit {key_f}", rep)
         got = [[float(v) for v in g] for g in res.additional_penalty]
